@@ -92,7 +92,13 @@ theorem for_step (ih : PAll P ld fuel) :
   | err v m p t s' =>
     rw [hr] at hb
     exact ⟨hb.1, (StOK.foldl hb.2 _ _ (fun s x _ hs => hs.remove env x)).restoreVars env hh⟩
-  | fail f s => rw [hr] at hb; exact hb
+  | fail f s =>
+    rw [hr] at hb
+    cases f with
+    | syn se => exact (StOK.foldl hb _ _ (fun s x _ hs => hs.remove env x)).restoreVars env hh
+    | oof => exact hb
+    | unsupported w => exact hb
+    | host k => exact hb
 
 theorem lambda_step : ∀ env a b c d, NodeOK P (.lambda a b c d) → POK P (eval ld (fuel+1) env (.lambda a b c d)) := by
   intro env a b c d hn
